@@ -293,8 +293,10 @@ func checkNameSinks(c *Ctx, p *Prog, R *BusRoles, rule string) {
 	e := NewEngine(p)
 	flow := NewFlow(p, e.cells)
 	nameFns := map[string]bool{"call:" + FuncDisplay(R.NameFn) + "#0": true}
+	flow.Opaque = map[*ssa.Function]bool{}
 	for _, h := range typedNameHelpers(p, R) {
 		nameFns["call:"+FuncDisplay(h)+"#0"] = true
+		flow.Opaque[h] = true
 	}
 	fromName := func(os []string) (bool, string) {
 		for _, o := range os {
